@@ -203,6 +203,41 @@ func runC05(cx *Ctx, r *Report) {
 	if nRew < 3 || nEsc < 6 {
 		r.toolErr("reward payouts %d (≥3) / escrow payouts %d (≥6) below the confirmed counts", nRew, nEsc)
 	}
+	// ---------------- AdjustPool: the new end height
+	// new end = S + ⌊available / perBlock⌋ where, for a started pool, available counts the
+	// blocks still to run from the same S (S = max(current height, start height)):
+	// (EndHeight − S)·perBlock + appended. Counting from another point re-funds blocks that
+	// have already been paid, the end height overshoots the budget and every later
+	// release - hence every unstake - fails with insufficient remaining reward.
+	{
+		n := 0
+		for _, x := range per["AdjustPool"] {
+			if x.ev.Kind != "assign:FarmPool.EndHeight" || x.ev.Args[0].LooseString() == "sdk.Context.BlockHeight()" {
+				continue
+			}
+			n++
+			v := x.ev.Args[0]
+			okE := false
+			why := "the new end height is not of the form S + …"
+			if v.Op == "bin" && v.Name == "+" && len(v.Args) == 2 {
+				S := v.Args[0].LooseString()
+				full := v.LooseString()
+				switch {
+				case !strings.Contains(S, ".StartHeight") || !strings.Contains(S, "sdk.Context.BlockHeight()"):
+					why = "the base " + trunc(S, 100) + " is not max(current height, start height)"
+				case !strings.Contains(full, ".EndHeight - "+S+")"):
+					why = "the blocks still to run are not counted from the same base as the new end height (expected (old EndHeight − " + trunc(S, 80) + "))"
+				default:
+					okE = true
+				}
+			}
+			r.check(okE, "adjust-end-height", "AdjustPool", x.ev.Pos(cx), "new EndHeight = S + ⌊available/perBlock⌋ with the remaining blocks counted as (old EndHeight − S) from the same S = max(current, start)", "AdjustPool: "+why)
+		}
+		if n == 0 {
+			r.violate("adjust-end-height", "AdjustPool", "", "AdjustPool no longer recomputes the pool's end height")
+		}
+	}
+	r.requireCount("adjust-end-height", 1)
 	cx.rewardFormula(r)
 	r.requireCount("reward-formula", 1)
 	r.requireCount("unstake-pool-persist", 1)
@@ -385,6 +420,11 @@ func runC06(cx *Ctx, r *Report) {
 			ok = ok && lcf != nil && s1 != nil && s1.Block() == lcf.Fn.Blocks[0]
 			// zeroing and persisting in the same iteration, after the old value was added to the refund
 			ok = ok && persistedAfter(z, evs, "farm:FarmPoolRuleKey=0x02")
+			// the community-pool route is taken exactly when the creator IS the community pool's
+			// module account (the very name the coins are then sent to)
+			_, c1 := pool[0].fact(true, "Equals(", "GetModuleAddress(", "keeper.communityPoolName")
+			_, c2 := pays[0].fact(false, "Equals(", "GetModuleAddress(", "keeper.communityPoolName")
+			ok = ok && c1 && c2
 			// exactly one of the two payouts on every successful path
 			pf, p1, p2 := commonFrame(pays[0].ev, pool[0].ev)
 			ok = ok && pf != nil && p1 != nil && p2 != nil && p1 != p2 && mustPass(pf.Fn, func(i ssa.Instruction) bool { return i == p1 || i == p2 }) && !p1.Block().Dominates(p2.Block()) && !p2.Block().Dominates(p1.Block())
